@@ -46,11 +46,11 @@ def shipped_pairs():
 def budget(ninsts, nground, quick):
     """exploration bound so that a case costs at most ~ (states x instances) checked edges; comparing two states is
     quadratic in the number of ground fluents, so very large problems (citycar: 2907 instances, 660 ground fluents)
-    are only compared statically (depth 0: objects, signatures, initial state, goal and metric at the initial state)
-    in the quick tier and on the instances of the initial state in the thorough tier"""
+    are only compared statically (depth 0: objects, signatures, initial state, goal and metric at the initial state);
+    one layer of citycar costs more than 15 minutes of vm_compute"""
     edges = 1500 if quick else 4000
     if ninsts * nground > 200000:
-        return (0, 1) if quick else (1, 1)
+        return (0, 1)
     cap = max(1, min(25 if quick else 40, edges // max(1, ninsts)))
     depth = 4 if cap >= 10 else (2 if cap >= 3 else 1)
     return depth, cap
